@@ -178,9 +178,16 @@ func (e *Engine) SynthesizeHandlerContracts(regs []Registration, template string
 		return fmt.Errorf("template contract %s not found", template)
 	}
 	minP := map[*ssa.Function]int64{}
+	onlyServices := map[*ssa.Function]bool{}
 	for _, r := range regs {
 		if m, ok := minP[r.Handler]; !ok || r.MinParams < m {
 			minP[r.Handler] = r.MinParams
+		}
+		if _, seen := onlyServices[r.Handler]; !seen {
+			onlyServices[r.Handler] = true
+		}
+		if !strings.HasPrefix(r.Name, "server_") {
+			onlyServices[r.Handler] = false
 		}
 	}
 	for h, m := range minP {
@@ -208,10 +215,18 @@ func (e *Engine) SynthesizeHandlerContracts(regs []Registration, template string
 		}
 		ct.Opts["inherited"] = "true"
 		hasParams := false
+		hasRole := false
 		for _, r := range ct.Requires {
 			if r.Label == "params" {
 				hasParams = true
 			}
+			if r.Label == "role" {
+				hasRole = true
+			}
+		}
+		if onlyServices[h] && !hasRole {
+			ex, _ := ParseExpr("s.Server")
+			ct.Requires = append(ct.Requires, Clause{Label: "role", E: ex, Src: "s.Server"})
 		}
 		var req []Clause
 		req = append(req, tpl.Requires...)
@@ -227,6 +242,7 @@ func (e *Engine) SynthesizeHandlerContracts(regs []Registration, template string
 			ct.Modifies = tpl.Modifies
 		}
 		ct.LoopInv = append(append([]Clause{}, tpl.LoopInv...), ct.LoopInv...)
+		ct.Asserts = append(append([]AnchorAssert{}, tpl.Asserts...), ct.Asserts...)
 	}
 	return nil
 }
